@@ -35,6 +35,7 @@ For each i in {ids} create the directory {wt}/MUTANTS/<i>/ containing:
   - the input files run.sh needs (.asn1 module, demo.c, data files);
   - meta.txt   : first line a one-line title; then "File / function:", "Change:", "Effect:" (precisely what shape of input is needed for the violation to show, and what one observes), "How verified:".
 Verify each one yourself: run.sh exits 0 on the clean tree and 1 with the patch applied and the tree rebuilt; the tree builds; and the test suite still gives 82 PASS with the patch applied (run the full suite at least once per change; use -j4, not more, other jobs share this machine). If a candidate change fails any of this, discard it and make another one.
+Other jobs share this machine and run the same commands in their own trees: never use pkill/killall or any kill by command-line pattern; if you must stop something, kill only processes whose /proc/<pid>/cwd lies inside your own worktree or scratch directory.
 When you are done, restore the worktree sources (`git -C {wt} checkout -- .` and rebuild with `make -j8`) so that only MUTANTS/ is untracked, remove {scr}, and reply with a short summary: for each change, the file/function, the one-line description, what is needed to trigger it, and the verification results (run.sh clean/patched exit codes, PASS count).
 """
 explored = ""
